@@ -1,3 +1,4 @@
+import re
 """Operation streams and predicates, C06..C13."""
 import random, itertools, re
 import props as P
@@ -12,6 +13,15 @@ from props_streams import dec_ops, head_variants, int_encodings, C02, lenbytes, 
 class C06(Prop):
     pid = 'C06'
     model_is_spec = False
+    def child_ops(self, tier):
+        """"any number of signers": a COSE_Sign built with 2^16+1 signers, encoded, decoded, the last one verified (implementation only; the
+        oracle is the recorded creator argument).  A silent cap in the list decoder drops that signer."""
+        E = '(hdr - (crit) - b b b (cs) (rest))'; out = []
+        for n in (65537,) if tier == 'quick' else (65536, 65537, 100000):
+            for tagged in ('F', 'T'):
+                op = 'flow CoseSignBuilder %s (ops (payload b70) %s) (check verify %d b vok)' % (tagged, ' '.join('(add_created_signature (sig (ph - %s) %s b) b echo)' % (E, E) for _ in range(n)), n - 1)
+                out.append(mk(op, k='CoseSignBuilder', many=n, idx=n - 1, nsig=n, late=False, same_aad=True, detached=False, late_prot=False, timeout=180, gen='COSE_Sign with %d signers, the last one verified after the wire' % n))
+        return out
     def gen(self, seed, tier):
         r = random.Random(seed); g = T(seed, valid=1.0); ops = []
         signer = lambda: r.choice(['echo', '(k b0102)', '(k b)', 'echo', '(fail 5)'])
@@ -75,6 +85,7 @@ class C06(Prop):
     def impl_pred(self, o, impl):
         """recorded creator argument == recorded verifier argument when nothing relevant changed in between"""
         m = o['meta']
+        if m.get('many') and '(called' not in impl: return 'signer %d of a COSE_Sign with %d signers could not be verified after the wire (%s)' % (m['idx'], m['many'], impl[-80:])
         if not impl.startswith('(calls') or '(called' not in impl: return None
         items = parse(impl)
         calls = items[0][1:]; called = [x for x in items if isinstance(x, list) and x and x[0] == 'called']
@@ -256,6 +267,27 @@ class C08(Prop):
 @register
 class C09(Prop):
     pid = 'C09'
+    @staticmethod
+    def long_lists(n):
+        def el(i, rc_): return refcbor.head(4, 3) + b'\x40' + b'\xa1\x04' + refcbor.head(2, 3) + i.to_bytes(3, 'big') + (b'\xf6' if rc_ else b'\x41' + bytes([i % 256]))
+        sl = refcbor.head(4, n) + b''.join(el(i, False) for i in range(n)); rl = refcbor.head(4, n) + b''.join(el(i, True) for i in range(n))
+        return (('CoseSign', b'\x84\x40\xa0\xf6' + sl), ('CoseEncrypt', b'\x84\x40\xa0\xf6' + rl), ('CoseMac', b'\x85\x40\xa0\xf6\x41\x74' + rl), ('CoseRecipient', b'\x84\x40\xa0\xf6' + rl))
+    def impl_pred(self, o, impl):
+        m = o['meta']
+        if m.get('k') == 'very-long-list':
+            if not impl.startswith('ok '): return 'a well-formed structure with %d list elements was not accepted (%s)' % (m['n'], impl[:40])
+            kids = re.findall(r'\(hdr - \(crit\) - b([0-9a-f]{6}) b b ', impl)
+            if len(kids) != m['n']: return 'decoded list has %d elements, the wire array %d' % (len(kids), m['n'])
+            for i, k in enumerate(kids):
+                if int(k, 16) != i: return 'element %d of the decoded list is wire element %d' % (i, int(k, 16))
+        return None
+    def child_ops(self, tier):
+        """very long lists (around 2^16 elements): run on the implementation only — the oracle is the input itself (element i carries key id i);
+        the Lean driver prints such values too slowly for the quick tier"""
+        out = []
+        for n in ((65535, 65536, 65537) if tier == 'quick' else (65535, 65536, 65537, 100000, 1 << 17)):
+            for t, b in self.long_lists(n): out.append(mk('dec %s b%s' % (t, b.hex()), k='very-long-list', n=n, timeout=120, gen='list of %d elements, element i has key id i' % n))
+        return out
     STRUCTS = ['CoseSign1', 'CoseSign', 'CoseSignature', 'CoseMac', 'CoseMac0', 'CoseEncrypt', 'CoseEncrypt0', 'CoseRecipient']
     def gen(self, seed, tier):
         r = random.Random(seed); g = T(seed, valid=0.9); ops = []
@@ -292,6 +324,10 @@ class C09(Prop):
                     for t in self.STRUCTS: ops.append(mk('dec %s b%s' % (t, b), k='subst%d' % arity))
         for v in (('map', []), I(1), B(b''), ('null',), ('tag', 18, ('array', good[4]))):
             for t in self.STRUCTS: ops.append(mk('dec %s b%s' % (t, refcbor.encode(v).hex()), k='nonarray'))
+        # long lists: every element still lands at its own index when the list crosses an array-head class or a plausible cap
+        # (informed-adversary round: `.take(65536)` in the shared list converter drops signer 65537 silently)
+        for n in (16, 17, 18, 24, 25, 255, 256, 257):
+            for t, b in self.long_lists(n): ops.append(mk('dec %s b%s' % (t, b.hex()), k='long-list', n=n, gen='long list of %d elements' % n))
         # lists of 3..6 *distinct* nested structures: every element lands at its own index (seeded C09-r5: swap_remove reorders from 3 up)
         for _ in range(budget(tier, 150, 3000)):
             n = r.choice([3, 3, 4, 5, 6])
@@ -311,8 +347,8 @@ class C10(Prop):
     def gen(self, seed, tier):
         r = random.Random(seed); g = T(seed, valid=0.9); ops = []
         I = lambda x: ('int', x); B = lambda b: ('bytes', b); Tx = lambda b: ('text', b); A = lambda xs: ('array', xs)
-        ktys = [None, I(0), I(1), I(2), I(3), I(4), I(5), I(6), I(7), I(-1), Tx(b'EC2'), Tx(b''), B(b''), I(2**63), ('null',)]
-        opsv = [A([]), A([I(1)]), A([I(1), I(2)]), A([I(1), I(1)]), A([Tx(b'a'), Tx(b'a')]), A([I(1), Tx(b'1')]), A([I(11)]), A([I(0)]), A([I(10), I(1), I(5)]), A([Tx(b'x')]), I(1), A([B(b'')]), A([I(2**63)]), A([A([])])]
+        ktys = [None, I(0), I(1), I(2), I(3), I(4), I(5), I(6), I(7), I(-1), Tx(b'EC2'), Tx(b''), B(b''), I(2**63), ('null',), Tx(b'2'), Tx(b'1'), Tx(b'04'), Tx(b'-1')]
+        opsv = [A([]), A([I(1)]), A([I(1), I(2)]), A([I(1), I(1)]), A([Tx(b'a'), Tx(b'a')]), A([I(1), Tx(b'1')]), A([I(11)]), A([I(0)]), A([I(10), I(1), I(5)]), A([Tx(b'x')]), A([I(2), Tx(b'2')]), A([Tx(b'1'), Tx(b'2'), I(3)]), A([Tx('\uff211'.encode()), Tx('\U0001f600'.encode())]), A([Tx('\U0001f600'.encode()), Tx('\uff211'.encode())]), A([Tx(b'B'), Tx(b'a')]), I(1), A([B(b'')]), A([I(2**63)]), A([A([])])]
         pal = {2: [B(b''), B(b'k'), I(1), Tx(b'k')], 3: [I(-7), I(-65537), I(-65536), I(8), Tx(b'a'), B(b''), I(2**63)], 4: opsv, 5: [B(b''), B(b'iv'), ('null',)]}
         labels = [0, 6, -1, -2, -3, -4, -5, -6, -65537, 2**63 - 1, -2**63, 2**63, -2**64]
         for _ in range(budget(tier, 6000, 120000)):
@@ -350,6 +386,16 @@ class C11(Prop):
             if r.random() < 0.2: ops.append(mk('tov %s %s' % (t, x), k=t + ':value'))
         for h in ('(hdr - (crit) - b b b (cs) (rest))', '(hdr - (crit) - b b b (cs (sig (ph - (hdr - (crit) - b b b (cs) (rest))) (hdr - (crit) - b b b (cs) (rest)) b)) (rest))', '(hdr - (crit) - b b b (cs) (rest i9 N))', '(hdr A-7 (crit) - b b b (cs) (rest))'):
             ops.append(mk('isempty ' + h, k='isempty')); ops.append(mk('tobstr (ph - %s)' % h, k='tobstr')); ops.append(mk('enc CoseSign1 (sign1 (ph - %s) %s - b)' % (h, h), k='protform'))
+        # long lists inside built values: every element is emitted (counter signatures, critical labels, signers, recipients, key
+        # operations would need distinct registered values, extra parameters, SuppPrivInfo)
+        E = C02.EMPTY
+        for n in (15, 16, 17, 18, 23, 24, 25, 100, 255, 256, 257):
+            sigs = ''.join(' (sig (ph - %s) %s b%04x)' % (E, E, i) for i in range(n)); rcps = ''.join(' (rcp (ph - %s) %s b%04x (rcps))' % (E, E, i) for i in range(n))
+            for op in ('enc Header (hdr - (crit) - b b b (cs%s) (rest))' % sigs, 'tobstr (ph - (hdr - (crit) - b b b (cs%s) (rest)))' % sigs, 'enc CoseSign (sign (ph - %s) %s b70 (sigs%s))' % (E, E, sigs),
+                       'enc CoseEncrypt (enc (ph - %s) %s b70 (rcps%s))' % (E, E, rcps), 'enc CoseMac (mac (ph - %s) %s b70 b71 (rcps%s))' % (E, E, rcps), 'enc CoseRecipient (rcp (ph - %s) %s b70 (rcps%s))' % (E, E, rcps),
+                       'enc Header (hdr - (crit%s) - b b b (cs) (rest))' % ''.join(' A%d' % (1 + i % 7) for i in range(n)), 'enc Header (hdr - (crit) - b b b (cs) (rest%s))' % ''.join(' i%d N' % (1000 + i) for i in range(n)),
+                       'enc CoseKey (key A1 b - (ops) b (params%s))' % ''.join(' i%d N' % (1000 + i) for i in range(n))):
+                ops.append(mk(op, k='long-built', n=n))
         # values as the decoders produce them: protected headers that carry stored wire bytes — the empty string included (what `40`
         # decodes to) — at every carrier and as a value of their own (seeded C11-r5: re-parsing the stored bytes fails on the empty string)
         g2 = T(seed + 7, valid=1.0, orig_p=0.6)
@@ -544,6 +590,12 @@ class C13(Prop):
         for _ in range(budget(tier, 800, 10000)):
             t = r.choice(TYPED_TYPES)
             ops.append(mk('layer %s b%s' % (t, g.venc(g.wire(t)).hex()), k='layer'))
+        # nesting around the parser's budget: the byte-level decoders and parse-then-convert agree there too (informed-adversary
+        # round: `from_reader_with_recursion_limit(slice.len())` in read_to_value accepts what ciborium's own entry point refuses)
+        for d in (254, 255, 256, 257, 258, 300, 1000):
+            deep = b'\x81' * d + b'\x00'
+            for t, b in (('Value', deep), ('Header', b'\xa1\x18\x64' + deep), ('CoseSign1', b'\x84\x40\xa1\x18\x64' + deep + b'\xf6\x40'), ('CoseKey', b'\xa2\x01\x01\x18\x64' + deep), ('ClaimsSet', b'\xa1\x18\x64' + deep)):
+                ops.append(mk('layer %s b%s' % (t, b.hex()), k='layer', depth=d))
         # encode side on values as the decoders leave them (protected headers holding stored bytes, at every carrier and alone):
         # to_vec must be the serialisation of to_cbor_value (seeded C13-r5: to_vec of a ProtectedHeader echoing the stored bytes)
         g2 = T(seed + 11, valid=1.0, orig_p=0.7); E = C02.EMPTY
